@@ -209,6 +209,22 @@ def run(ctx, report):
                 opened = [e for e in collapse(fs.events, path) if e[0] in ("open", "mkdir")]
                 if upfront and opened:
                     probs.append(f"rejection that up-front validation can detect still issued filesystem writes: {opened[:2]}")
+                # history level (theorem rejected_attempts_invisible): the next, valid append - planned from what is on disk - must give
+                # old ++ new as if the rejected one had never been tried (part files it left behind are re-created, not read)
+                if raised is not None and not probs and kind.startswith("late") and not kind.startswith("late-required"):
+                    try:
+                        good = base_frame(8, 500)
+                        hive_kw = {} if layout == "simple" else ({"file_scheme": "hive"} if layout in ("hive", "hive-hole") else {"file_scheme": "hive", "partition_on": ["p"]})
+                        fastparquet.write(path, good, append=True, write_index=False, row_group_offsets=[0, 4], object_encoding="utf8", **hive_kw)
+                        got2 = fastparquet.ParquetFile(path).to_pandas()
+                        cols = ["a", "b", "c", "p"]
+                        want2 = pd.concat([df0[cols], good[cols]], ignore_index=True).sort_values("a").reset_index(drop=True)
+                        d2 = diff_frames(want2, got2[cols].sort_values("a").reset_index(drop=True)) if len(got2) == len(want2) else [f"{len(got2)} rows read, {len(want2)} expected"]
+                        if d2:
+                            probs.append("a valid append after the rejected one does not give old ++ new: " + "; ".join(d2)[:150])
+                        report.count("retry-after-rejection")
+                    except Exception as e:  # noqa
+                        probs.append("a valid append after the rejected one raised: " + canon_err(e) + " " + str(e)[:80])
                 if probs:
                     single_late = layout == "simple" and kind.startswith("late")
                     report.violation({**rec, "what": "; ".join(probs)[:400], "raised": raised,
